@@ -1,4 +1,5 @@
 import SockModel.Model.PoolLemmas
+import SockModel.Spec.C10
 /-!
 # C10  BufferPool accounting and recycling, including the sockets' receive pools
 
@@ -244,6 +245,12 @@ theorem rx_pool_always_available (n size : Nat) (hpos : 0 < n) (hn : n < sizeMax
     | value m => simp
     | nothing => simp only [recycle, if_pos hmem2]; simp
     | exn => simp only [recycle, if_pos hmem2]; simp
+
+/-- the predicate `./check C10` evaluates on the implementation's observations (`Spec/C10.lean`:
+`specGetOk`, `specGetThrow`) accepts every trace of the model, for every `(N, reserve)` and every history -/
+theorem spec_holds_on_model (n r : Nat) (hn : n < sizeMax) (ops : List Op) (hlen : ops.length < sizeMax - 1) :
+    ∃ s, specRun n r {} (modelTrace (create n r) ops) = .ok s :=
+  model_satisfies_spec n r hn ops hlen
 
 /-! ### non-vacuity: concrete non-trivial states meet the hypotheses -/
 
